@@ -317,7 +317,17 @@ def run(repo: Repo, L: Ledger, tier: str):
     for f, c in cwd_sites:
         recv = c.func.value if isinstance(c.func, ast.Attribute) else None
         good = f.short == "index_fasta_file" and isinstance(recv, ast.Name) and recv.id == f.params()[0]
-        L.check(good, "R4", f"{f.short}:{norm(c)[:40]}", "absolute() of the FASTA path only", f"'{norm(c)}' makes a value depend on the working directory", f.loc(c))
+        if good:
+            L.ok("R4", f"{f.short}:{norm(c)[:40]}", "absolute() of the FASTA path only (click resolves that option)", f.loc(c))
+            continue
+        # any other cwd-dependent value: a finding only when it reaches something that is written
+        flow = track(repo, f, c)
+        if flow.sinks:
+            L.fail("R4", f"{f.short}:{norm(c)[:40]}", f"'{norm(c)}' makes a value depend on the working directory and it reaches an output: {flow.sinks[0][0]} (at {flow.sinks[0][1]})", f.loc(c))
+        elif flow.escapes:
+            raise AnalysisError(f"C17.R4 {f.short}: the working-directory dependent value '{norm(c)[:40]}' goes where the value-flow tracker does not follow ({flow.escapes[0][0]}): no verdict")
+        else:
+            L.ok("R4", f"{f.short}:{norm(c)[:40]}", f"cwd-dependent value stays within path comparisons / file names / diagnostics ({flow.places} places followed)", f.loc(c))
         okc = okc and good
     cli = eps.get("pretext-to-asm")
     opt = None
